@@ -227,9 +227,9 @@ public:
    template < class S >
    void add(const SVectorBase<S>& vec)
    {
-      SVectorBase<R>::clear();
+      // append: the nonzeros already stored are kept (clearing them is what operator= does)
       makeMem(vec.size());
-      SVectorBase<S>::add(vec);
+      SVectorBase<R>::add(vec);
    }
 
    /// Append one nonzero \p (i,v).
